@@ -38,6 +38,10 @@ type Record struct {
 	ISO                                               *uint32
 	ISOLong                                           bool
 	ISOSecond                                         *uint16 // ISOSpeedRatings has count "any": a second SHORT in the slot (the reported speed is the first)
+	// ISOMore: further values after the first (count 3..5 SHORT, or count 2..3 LONG): the array no longer fits the slot and is stored
+	// out of line; the reported speed is still the first value. StripMore: further strips (offset and byte count arrays of 2..5 entries).
+	ISOMore   []uint32 `json:",omitempty"`
+	StripMore []uint32 `json:",omitempty"`
 	Bias                                              *[2]int32
 	Program, Mode, Metering, Flash                    *uint16
 	FL35                                              *uint16
@@ -67,6 +71,7 @@ type Options struct {
 	Unbuffered      bool // file will be read through the unbuffered path: directories <= 85 entries, values <= 1024
 	PlainStrings    bool
 	FirstIFD        int // > 0: offset of IFD0 (the bytes between the TIFF header and it are padding)
+	Arrays          bool // ISOSpeedRatings with 3..5 SHORT / 2..4 LONG values and StripOffsets / StripByteCounts with 2..5 entries (stored out of line; the first value is the reported one)
 	LongText        bool // one or two of ImageDescription / Software / Copyright are 1023..20000 bytes long (around and beyond the readers' 1 KiB / 4 KiB windows)
 	ManyEntries     bool // one directory is filled with embedded-value foreign tags up to (or just below) the entry limit: 128, or 85 with Unbuffered
 }
@@ -277,6 +282,11 @@ func GenRecord(rt *rapid.T, o Options) *Record {
 		}
 		a, b := rapid.Uint32Range(1, max).Draw(rt, "stripOff"), rapid.Uint32Range(1, max).Draw(rt, "stripLen")
 		r.StripOffsets, r.StripByteCounts = &a, &b
+		if o.Arrays && Chance(rt, "strip.more?", 0.6) {
+			for i, n := 0, rapid.IntRange(1, 4).Draw(rt, "strip.nmore"); i < n; i++ {
+				r.StripMore = append(r.StripMore, rapid.Uint32Range(1, max).Draw(rt, "strip.more"))
+			}
+		}
 	}
 	r.DNGVersion = Chance(rt, "dng?", 0.15)
 	switch rapid.IntRange(0, 3).Draw(rt, "serialsrc") {
@@ -324,6 +334,15 @@ func GenRecord(rt *rapid.T, o Options) *Record {
 		if !r.ISOLong && Chance(rt, "iso.second?", 0.25) {
 			s2 := uint16(rapid.SampledFrom([]int{1, 100, 200, 400, 25600, 65535}).Draw(rt, "iso.second"))
 			r.ISOSecond = &s2
+		}
+		if o.Arrays && Chance(rt, "iso.more?", 0.5) {
+			for i, n := 0, rapid.IntRange(1, 3).Draw(rt, "iso.nmore"); i < n; i++ {
+				r.ISOMore = append(r.ISOMore, uint32(rapid.SampledFrom([]int{1, 50, 100, 200, 400, 25600, 65535}).Draw(rt, "iso.more")))
+			}
+			if !r.ISOLong && r.ISOSecond == nil {
+				s2 := uint16(200)
+				r.ISOSecond = &s2
+			}
 		}
 	}
 	if Chance(rt, "bias?", p) {
@@ -540,8 +559,22 @@ func BuildDirs(r *Record) (ifd0, exif, gps *Dir) {
 	addU(ifd0, 0x0100, r.Width, r.WidthLong)
 	addU(ifd0, 0x0101, r.Height, r.HeightLong)
 	addH(ifd0, 0x0112, r.Orientation)
-	addU(ifd0, 0x0111, r.StripOffsets, !r.StripShort)
-	addU(ifd0, 0x0117, r.StripByteCounts, !r.StripShort)
+	arr := func(first uint32, more []uint32, long bool) Val {
+		if long {
+			return Long(append([]uint32{first}, more...)...)
+		}
+		v := []uint16{uint16(first)}
+		for _, m := range more {
+			v = append(v, uint16(m))
+		}
+		return Short(v...)
+	}
+	if r.StripOffsets != nil && len(r.StripMore) > 0 {
+		ifd0.Entries = append(ifd0.Entries, Entry{Tag: 0x0111, V: arr(*r.StripOffsets, r.StripMore, !r.StripShort)}, Entry{Tag: 0x0117, V: arr(*r.StripByteCounts, r.StripMore, !r.StripShort)})
+	} else {
+		addU(ifd0, 0x0111, r.StripOffsets, !r.StripShort)
+		addU(ifd0, 0x0117, r.StripByteCounts, !r.StripShort)
+	}
 	addS(ifd0, 0x0131, r.Software)
 	addS(ifd0, 0x013b, r.Artist)
 	addS(ifd0, 0x8298, r.Copyright)
@@ -557,7 +590,13 @@ func BuildDirs(r *Record) (ifd0, exif, gps *Dir) {
 	addR(exif, 0x829a, r.ExposureTime)
 	addR(exif, 0x829d, r.FNumber)
 	addH(exif, 0x8822, r.Program)
-	if r.ISO != nil && !r.ISOLong && r.ISOSecond != nil {
+	if r.ISO != nil && len(r.ISOMore) > 0 {
+		more := r.ISOMore
+		if !r.ISOLong {
+			more = append([]uint32{uint32(*r.ISOSecond)}, more...)
+		}
+		exif.Entries = append(exif.Entries, Entry{Tag: 0x8827, V: arr(*r.ISO, more, r.ISOLong)})
+	} else if r.ISO != nil && !r.ISOLong && r.ISOSecond != nil {
 		exif.Entries = append(exif.Entries, Entry{Tag: 0x8827, V: Short(uint16(*r.ISO), *r.ISOSecond)})
 	} else {
 		addU(exif, 0x8827, r.ISO, r.ISOLong)
